@@ -47,6 +47,15 @@ class ExternMixin:
     def bi_fresh_bytes(self, args, kw, node):
         return SV('bytes', self.sym('fresh', SEQ))
 
+    def bi_ieee32(self, args, kw, node):
+        return SV('bytes', self.ufunc('ieee32', OPQ, SEQ)(self.as_opq(args[0])))
+
+    def bi_ieee64(self, args, kw, node):
+        return SV('bytes', self.ufunc('ieee64', OPQ, SEQ)(self.as_opq(args[0])))
+
+    def bi_f32_overflow(self, args, kw, node):
+        return VB(self.ufunc('f32_overflow', OPQ, BOOL)(self.as_opq(args[0])))
+
     def bi_all_ascii(self, args, kw, node):
         return VB(self.all_ascii(self.as_seq(args[0])))
 
